@@ -24,6 +24,7 @@ struct Node {
     int tlen = 0;           // FLBA
     int logical = 0;        // 0 none, else the field id of the LogicalType union in parquet.thrift: 1 STRING 2 MAP 3 LIST 4 ENUM 5 DECIMAL 6 DATE
                             // 7 TIME 8 TIMESTAMP 10 INTEGER 11 UNKNOWN(null) 12 JSON 13 BSON 14 UUID 15 FLOAT16 (peer may annotate)
+    bool converted_only = false;   // the file states the annotation through the legacy converted_type field only (no LogicalType), as parquet-mr < 1.11 / Spark <= 2.4 / Impala do
     int lp1 = 0, lp2 = 0;   // DECIMAL: scale, precision; TIME/TIMESTAMP: isAdjustedToUTC, unit (1 millis 2 micros 3 nanos); INTEGER: bitWidth, isSigned
     std::vector<Node> kids; // groups
 };
